@@ -1039,6 +1039,11 @@ PROP = Prop(
         "simulation values are small integers / dyadic rationals: float32 arithmetic is exact; cases whose intermediate "
         "values leave |x| < 2^21 are not judged",
         "parameter histories: start <= stop (claim domain of C06); formulas never request their own variable",
+        "descriptive attributes (label, reference, documentation, unit) and a custom system attribute read through "
+        "Reform.__getattr__ are checked by the oracle only (inheritance on update, identity on derivation): not in the model",
+        "Enum / str / date variables are input-only; allowed_type / required-default validation errors are not generated",
+        "histories that modify the base after something derives from it are outside the statement: correspondence "
+        "only, not claimed (theorem C14_copy_independent_of_source answers for clones)",
         "the engine's evaluation of formulas is property C01; here the calculation on a system is determined by the "
         "observations, and real simulations are compared with a naive evaluator of the declared rules",
     ],
